@@ -34,6 +34,10 @@ var Keys = map[string]*Key{}
 // Windows are the certificate validity windows available for every key.
 var Windows = []string{"wide", "past", "future", "narrow"}
 
+// SPWindows: certificates of the SP's own RSA keys (S1, S2, E1, E2), all valid 2020-2040. Besides the plain
+// "wide" one there are certificates whose DER ends in a line feed, a space or a NUL byte (cmd/addws).
+var SPWindows = []string{"wide", "wide", "wide", "wide-nl", "wide-sp", "wide-nul"}
+
 func init() {
 	var raw map[string]struct {
 		Kind  string            `json:"kind"`
